@@ -150,6 +150,7 @@ func checkC11(c *Check) {
 		}
 	}
 	c.dialSingleResult("C11.3 dial-result")
+	c.cleanupContract("C11.1 session-end-releases-connection")
 	// who may dial: idle, connect, active (conn == nil branch)
 	for _, fn := range p.FuncSeq {
 		for _, cl := range p.callsIn(fn, descIs("fsm.dialPeer")) {
